@@ -76,7 +76,10 @@ def run_one_path(it, expl, eidx, prefix):
         err = 'Unsupported: %s' % (e,)
     except Exception as e:   # interpreter crash: reported as checker error by the master
         p.ended = 'crash'
-        err = 'crash: %r\n%s' % (e, traceback.format_exc()[-6000:])
+        extra = ''
+        if hasattr(e, 'exc') and hasattr(e.exc, 'fields'):
+            extra = ' %s%r' % (e.exc.cls.name, e.exc.fields.get('args'))
+        err = 'crash: %r%s\n%s' % (e, extra, traceback.format_exc()[-6000:])
     finally:
         it.p = None
         it.mode.target = saved_target
